@@ -21,7 +21,7 @@ def one_walk(tt, torch, rng, steps):
     for _ in range(steps):
         op = rng.choice(["add", "sub", "mul", "neg", "round", "round_rmax", "reshape", "permute", "index", "sum", "cat", "pad", "matvec", "kron",
                          "set_core", "reduce_dims", "to_ttm", "diag", "clone", "scal", "adds", "div_s", "norm", "full", "t", "conj", "hadamard",
-                         "fast_matvec", "div", "dot_axes", "mprod", "to_qtt"])
+                         "fast_matvec", "amen_mv", "div", "dot_axes", "mprod", "to_qtt"])
         tens = [o for o in objs if not o.is_ttm]
         mats = [o for o in objs if o.is_ttm]
         x = rng.choice(tens)
@@ -60,10 +60,27 @@ def one_walk(tt, torch, rng, steps):
             elif op == "full": x.full(); out = None
             elif op == "t": out = rng.choice(mats).t()
             elif op == "conj": out = x.conj()
-            elif op == "hadamard": out = tt.dmrg_hadamard(x, y, eps=1e-8) if max(x.R) * max(y.R) <= 16 else x.clone()
+            elif op == "hadamard":
+                g = rng.choice(same) if rng.random() < 0.5 else None          # an existing object as the optional initial guess
+                out = tt.dmrg_hadamard(x, y, z0=g, eps=1e-8) if max(x.R) * max(y.R) <= 16 else x.clone()
             elif op == "fast_matvec":
                 cand = [A for A in mats if A.N == x.N]
-                out = rng.choice(cand).fast_matvec(x, eps=1e-8) if cand and max(x.R) <= 6 else x.clone()
+                if cand and max(x.R) <= 6:
+                    A = rng.choice(cand)
+                    gs = [o for o in tens if o.N == A.M]
+                    g = rng.choice(gs) if gs and rng.random() < 0.6 else None
+                    out = A.fast_matvec(x, eps=1e-8, initial=g)
+                else:
+                    out = x.clone()
+            elif op == "amen_mv":
+                cand = [A for A in mats if A.N == x.N]
+                if cand and max(x.R) <= 4 and len(x.N) >= 2:
+                    A = rng.choice(cand)
+                    gs = [o for o in tens if o.N == A.M]
+                    g = rng.choice(gs) if gs and rng.random() < 0.6 else None
+                    out = tt.amen_mv(A, x, x0=g, eps=1e-8, nswp=6)
+                else:
+                    out = x.clone()
             elif op == "div": out = x / (1.0 + y * y) if len(x.N) >= 2 and max(x.R) <= 4 and max(y.R) <= 2 else x.clone()
             elif op == "dot_axes": out = tt.dot(x, tt.ones([x.N[0]], dtype=dt), [0]) if len(x.N) > 1 else x.clone()
             elif op == "mprod": out = x.mprod(torch.randn(2, x.N[0], dtype=dt), 0)
